@@ -91,6 +91,12 @@ func (c *Ctx) readerLayout(rule string) *readerLayout {
 	L.utf8Accepted = fieldIdx(u, "accepted", nil)
 	L.utf8State = fieldIdx(u, "state", nil)
 	L.utf8Codep = fieldIdx(u, "codep", nil)
+	for name, v := range map[string]int{"Source": L.utf8Source, "accepted": L.utf8Accepted, "state": L.utf8State, "codep": L.utf8Codep} {
+		if v < 0 {
+			c.R.Unknown(rule, rule+"/anchor:wsutil.UTF8Reader."+name, "-", "field "+name+" of wsutil.UTF8Reader does not resolve: the validating reader keeps its automaton state in a shape these rules cannot follow")
+			return nil
+		}
+	}
 	L.cipherReader = c.P.NamedType(wsutil, "CipherReader")
 	cr := structOf(L.cipherReader)
 	if cr == nil || L.utf8Source < 0 {
